@@ -56,7 +56,14 @@ def run_real(cases, repeat=1, workdir=None, driver=None):
     workdir = workdir or os.path.join(ROOT, '_build/k1')
     os.makedirs(workdir, exist_ok=True)
     path = os.path.join(workdir, 'cases_%d.txt' % os.getpid())
+    stops = 0
     while todo:
+        if stops >= 4:
+            # the driver died or hung four times in this batch: report the rest as not run instead of paying a
+            # time-out for every remaining input (a hang on a common input shape would otherwise take hours)
+            for cid, src in todo:
+                out[cid] = ('ABORTED', 'not run: the driver crashed or hung %d times in this batch' % stops)
+            break
         with open(path, 'w') as f:
             for cid, src in todo:
                 f.write('#CASE %s\n%s\n' % (cid, src))
@@ -64,7 +71,7 @@ def run_real(cases, repeat=1, workdir=None, driver=None):
         if repeat > 1:
             cmd += ['--repeat', str(repeat)]
         try:
-            p = subprocess.run(cmd, stdin=subprocess.DEVNULL, capture_output=True, text=True, timeout=60 + len(todo) // 20)
+            p = subprocess.run(cmd, stdin=subprocess.DEVNULL, capture_output=True, text=True, timeout=12 + len(todo) // 60)
             stdout, rc = p.stdout, p.returncode
         except subprocess.TimeoutExpired as e:
             stdout, rc = (e.stdout or b'').decode() if isinstance(e.stdout, bytes) else (e.stdout or ''), 'timeout'
@@ -84,6 +91,7 @@ def run_real(cases, repeat=1, workdir=None, driver=None):
         if begun is None:
             raise RuntimeError('k1driver failed without a running case: rc=%s' % rc)
         out[begun] = ('TIMEOUT' if rc == 'timeout' else 'CRASH', 'rc=%s' % rc)
+        stops += 1
         idx = [c[0] for c in todo].index(begun)
         todo = todo[idx + 1:]
     os.unlink(path)
